@@ -1,11 +1,14 @@
 import Lean.Data.Json
 import SkopsModel.Card.Ops
 import SkopsModel.Markup.Parser
+import SkopsModel.Io.GetTree
+import SkopsModel.Io.Trace
+import SkopsModel.Generated.Specs
 /-!
 Line-protocol driver: one JSON object per input line, one JSON object per output line.
 This file is glue (JSON decoding/encoding only); every decision is taken by the model functions.
 -/
-open Lean Skops Skops.Card Skops.Markup
+open Lean Skops Skops.Card Skops.Markup Skops.Io
 
 structure DSt where
   card : Card := {}
@@ -30,7 +33,7 @@ def asPair (j : Json) : String × String :=
   match asList j with
   | [a, b] => (asStr a, asStr b)
   | _ => ("", "")
-def asTable (j : Json) : Table :=
+def asTable (j : Json) : Card.Table :=
   (asList j).map fun col =>
     match asList col with
     | [k, vs] => (asStr k, (asList vs).map asStr)
@@ -160,6 +163,122 @@ partial def forestJson (prefixPath : List String) : Forest → List Json
     Json.mkObj [("path", strArr p), ("title", s.title), ("content", s.content)]
       :: (forestJson p ch ++ forestJson prefixPath rest)
 
+
+/-! ## io: tagged JSON → `J`, tree dump -/
+
+instance : Inhabited J := ⟨J.null⟩
+def natJ (n : Nat) : Json := (n : Json)
+
+mutual
+partial def decJ (j : Json) : J :=
+  match asList j with
+  | [Json.str "n"] => .null
+  | [Json.str "b", Json.bool b] => .bool b
+  | [Json.str "i", Json.str s] => .int (s.toInt?.getD 0)
+  | [Json.str "f", Json.str tok, Json.str i] => .float tok (i.toInt?)
+  | [Json.str "f", Json.str tok, _] => .float tok none
+  | [Json.str "s", Json.str s] => .str s
+  | [Json.str "a", xs] => .arr ((asList xs).foldr (fun x acc => JL.cons (decJ x) acc) JL.nil)
+  | [Json.str "o", kvs] => .obj ((asList kvs).foldr (fun kv acc =>
+      match asList kv with
+      | [Json.str k, v] => JO.cons k (decJ v) acc
+      | _ => acc) JO.nil)
+  | _ => .null
+end
+
+partial def encJ : J → Json
+  | .null => Json.null
+  | .bool b => Json.bool b
+  | .int i => Json.mkObj [("i", toString i)]
+  | .float tok _ => Json.mkObj [("f", tok)]
+  | .str s => Json.str s
+  | .arr xs => Json.arr (xs.toList.map encJ).toArray
+  | .obj kvs => Json.arr (kvs.toList.map fun kv => Json.arr #[Json.str kv.1, encJ kv.2]).toArray
+
+def optStr : Option String → Json
+  | some s => Json.str s
+  | none => Json.null
+
+def nameJ : NameVal → Json
+  | .str s => Json.str s
+  | .other _ => Json.null
+
+def grpName : Grp → String
+  | .single => "single" | .listElem => "list" | .dictElem => "dict"
+
+/-- DFS dump; a node met again (same nid) is listed as a reference to its first visit -/
+partial def dumpNode (tbl : Io.Table) (depth : Nat) (slot label grp : String) (n : Node)
+    (seen : List Nat) (acc : Array Json) : List Nat × Array Json :=
+  match n with
+  | .backref nid =>
+    (seen, acc.push (Json.mkObj [("d", natJ depth), ("slot", slot), ("label", label), ("grp", grp), ("t", "ref"),
+      ("idx", natJ (seen.reverse.idxOf nid))]))
+  | .mk nid kind mod cls extra kids ref =>
+    if seen.contains nid then
+      (seen, acc.push (Json.mkObj [("d", natJ depth), ("slot", slot), ("label", label), ("grp", grp), ("t", "ref"),
+        ("idx", natJ (seen.reverse.idxOf nid))]))
+    else
+      let k := tbl.kind kind
+      let acc := acc.push (Json.mkObj [("d", natJ depth), ("slot", slot), ("label", label), ("grp", grp), ("t", "node"),
+        ("cls", k.cls), ("mod", nameJ mod), ("name", nameJ cls), ("extra", strArr extra)])
+      let seen := nid :: seen
+      let rec kidsLoop (ks : Kids) (seen : List Nat) (acc : Array Json) : List Nat × Array Json :=
+        match ks with
+        | .nil => (seen, acc)
+        | .node s l g c rest =>
+          let r := dumpNode tbl (depth + 1) s l (grpName g) c seen acc
+          kidsLoop rest r.1 r.2
+        | .raw s j rest =>
+          kidsLoop rest seen (acc.push (
+            if j.isNull then Json.mkObj [("d", natJ (depth + 1)), ("slot", s), ("t", "none")]
+            else Json.mkObj [("d", natJ (depth + 1)), ("slot", s), ("t", "raw"), ("v", encJ j)]))
+        | .absent s rest =>
+          kidsLoop rest seen (acc.push (Json.mkObj [("d", natJ (depth + 1)), ("slot", s), ("t", "none")]))
+        | .blob s m rest =>
+          kidsLoop rest seen (acc.push (Json.mkObj [("d", natJ (depth + 1)), ("slot", s), ("t", "blob"), ("member", m)]))
+        | .synth s snid m c extra rest =>
+          kidsLoop rest (snid :: seen) (acc.push (Json.mkObj [("d", natJ (depth + 1)), ("slot", s), ("label", s),
+            ("grp", "single"), ("t", "node"),
+            ("cls", ((tbl.find? "TypeNode" tbl.protocol).map (·.2.cls)).getD "?"), ("mod", nameJ m), ("name", nameJ c),
+            ("extra", strArr extra)]))
+      let r := kidsLoop kids seen acc
+      match ref with
+      | .no => r
+      | .missing => (r.1, r.2.push (Json.mkObj [("d", natJ (depth + 1)), ("slot", "@memo"), ("t", "none")]))
+      | .to c => dumpNode tbl (depth + 1) "@memo" "@memo" "single" c r.1 r.2
+
+def eventJson (tbl : Io.Table) : Event → Json
+  | .resolve name kind _ => Json.mkObj [("e", "resolve"), ("name", name), ("by", (tbl.kind kind).cls)]
+  | .resolveIn m kind _ => Json.mkObj [("e", "resolveIn"), ("module", m), ("by", (tbl.kind kind).cls)]
+  | .getattr name kind _ => Json.mkObj [("e", "getattr"), ("name", name), ("by", (tbl.kind kind).cls)]
+
+def errStr : LErr → String
+  | .keyError => "KeyError" | .typeError => "TypeError" | .valueError => "ValueError"
+  | .attrError => "AttributeError" | .recursion => "RecursionError" | .importError => "ImportError"
+
+def ioLoad (j : Json) : Json :=
+  let tbl := Skops.Generated.table
+  let schema := decJ ((j.getObjVal? "schema").toOption.getD Json.null)
+  let members := jStrs j "members"
+  let fuel := ((j.getObjValAs? Nat "fuel").toOption.getD 400)
+  let Ts : List (List String) := (jArr j "trusted").map fun t => (asList t).map asStr
+  match getTreeRoot tbl schema members fuel with
+  | .error e => Json.mkObj [("r", "err"), ("e", errStr e)]
+  | .ok root =>
+    let dump := (dumpNode tbl 0 "root" "root" "single" root [] #[]).2
+    let unt := match untrusted tbl root with
+      | some l => strArr l
+      | none => Json.null
+    let perT := Ts.map fun T =>
+      match root.unsafe tbl T with
+      | none => Json.mkObj [("verdict", "audit-error")]
+      | some l =>
+        let l := sortDedup l
+        if l.isEmpty then
+          Json.mkObj [("verdict", "ok"), ("events", Json.arr ((traceOf tbl root).map (eventJson tbl)).toArray)]
+        else Json.mkObj [("verdict", "untrusted"), ("names", strArr l)]
+    Json.mkObj [("r", "tree"), ("dump", Json.arr dump), ("untrusted", unt), ("perT", Json.arr perT.toArray)]
+
 def badOp : Json := Json.mkObj [("r", "bad-op")]
 
 def handle (st : DSt) (j : Json) : DSt × Json :=
@@ -171,6 +290,7 @@ def handle (st : DSt) (j : Json) : DSt × Json :=
       let r := step st.card o
       ({ st with card := r.1 }, outJson r.2)
     | none => (st, badOp)
+  else if op = "io.load" then (st, ioLoad j)
   else if op = "md.conv" then
     let items := (jArr j "items").map decItem
     let r := mdConvAll items []
